@@ -185,11 +185,11 @@ def run_real(spec, mods, mol, processor=None, via_system=False):
     top_len = [None]
     orig_identify, orig_cover, orig_nx = canmod.identify_ptms, canmod._cover_graph, canmod.nx
 
-    def cover_wrap(graph, to_cover, fragments):
+    def cover_wrap(graph, to_cover, fragments, *rest, **kw):
         depth[0] += 1
         RecGM.in_cover += 1
         try:
-            out = orig_cover(graph, to_cover, fragments)
+            out = orig_cover(graph, to_cover, fragments, *rest, **kw)
         finally:
             depth[0] -= 1
             RecGM.in_cover -= 1
@@ -752,6 +752,7 @@ def gen_case(rng):
         rid += rng.choice([1, 1, 1, 2])
     hist = []
     pre_done = set()
+    pre_used = {}
     natt = rng.choice([0, 1, 1, 2, 2, 3])
     all_L = lib_fixed()
     for _ in range(natt):
@@ -785,14 +786,16 @@ def gen_case(rng):
         # applied through `modify`: canonical names, pre-labelled (only patterns with distinct atom names:
         # apply_mod_to_block works on one block whose atom names are unique)
         pre = rng.random() < 0.08 and src in lib and len({a[2]['atomname'] for a in matoms}) == len(matoms)
-        if pre and (src, ri) in pre_done:
-            # the same modification annotated twice on one residue would give two atoms of one residue the same
+        pre_names = {a[2]['atomname'] for a in ptm_m}
+        if pre and ((src, ri) in pre_done or pre_names & pre_used.setdefault(ri, set())):
+            # the same modification (or one sharing names of added atoms) annotated twice on one residue would give two atoms of one residue the same
             # name: outside the contract of fix_ptm (atom names are correct, i.e. unique per residue) - the
             # attachment is generated as an ordinary flagged one instead
             pre = False
             hist.append('excluded_same_annotation_twice')
         if pre:
             pre_done.add((src, ri))
+            pre_used.setdefault(ri, set()).update(pre_names)
         foreign = rng.random() < 0.05
         for a in ptm_m:
             attrs = A(a[2]['atomname'] if pre else 'X%d' % key, a[2]['element'],
@@ -1281,11 +1284,11 @@ def run_identify_direct(spec):
     depth, top_len = [0], [None]
     orig_cover, orig_nx = canmod._cover_graph, canmod.nx
 
-    def cover_wrap(graph, to_cover, fragments):
+    def cover_wrap(graph, to_cover, fragments, *rest, **kw):
         depth[0] += 1
         RecGM.in_cover += 1
         try:
-            out = orig_cover(graph, to_cover, fragments)
+            out = orig_cover(graph, to_cover, fragments, *rest, **kw)
         finally:
             depth[0] -= 1
             RecGM.in_cover -= 1
@@ -1311,6 +1314,8 @@ def run_identify_direct(spec):
             res = 'keyerror ' + enc(sorted(idx for idxs in ptms for idx in idxs[0]))
         except RecursionError:
             res = 'crash-recursion'
+        except Exception as e:  # pylint: disable=broad-except
+            res = 'crash-' + type(e).__name__
     finally:
         canmod._cover_graph, canmod.nx = orig_cover, orig_nx
     given = [[[list(q) for q in sorted(m.items())] for m in gm.placements()] for _, gm in options]
@@ -1344,6 +1349,8 @@ def run_identify_direct(spec):
                     errs.append('identify_ptms returned a cover that leaves atom %d of a group out' % x)
                 elif n_in > 1 and snap[x][2] and not any(annot.get(y) for y in a):
                     errs.append('identify_ptms covered the flagged atom %d %d times' % (x, n_in))
+    elif res.startswith('crash'):
+        errs.append('identify_ptms raised %s' % res)
     elif res.startswith('keyerror'):
         if explained_by_known(snap, sedges, ogroups, annot, mods):
             errs.append('identify_ptms raised KeyError although known modifications explain the groups %s'
